@@ -71,8 +71,8 @@ OverflowError.  In all other circumstances a value should be
 returned.
 */
 var (
-	EDOM   = py.ExceptionNewf(py.ValueError, "math domain error")
-	ERANGE = py.ExceptionNewf(py.OverflowError, "math range error")
+	EDOM   = py.ExceptionTemplatef(py.ValueError, "math domain error")
+	ERANGE = py.ExceptionTemplatef(py.OverflowError, "math range error")
 )
 
 // isFinite is true if x is not Nan or +/-Inf
